@@ -11,14 +11,9 @@ def R(t, n=0, m=0):
 
 
 def expand(iv):
-    """integer set denoted + canonical-form check (sorted, disjoint, non adjacent)"""
+    """integer set denoted by the interval object (no assumption on its internal form)"""
     out = set()
-    prev = None
     for a, b in iv.intervals:
-        assert a <= b, "reversed bound kept: %r" % (iv.intervals,)
-        if prev is not None:
-            assert a > prev + 1, "not canonical: %r" % (iv.intervals,)
-        prev = b
         out.update(range(a, b + 1))
     return out
 
@@ -74,7 +69,9 @@ class Adapter(object):
         raise core.MachineryError(op)
 
     def project(self, h):
-        return {"A": expand(h.A), "B": expand(h.B)}
+        # the observers are part of the projection: length/hull/emptiness of both registers
+        return {"A": expand(h.A), "B": expand(h.B), "lenA": h.A.length, "lenB": h.B.length,
+                "eq": bool(h.A == h.B), "hullA": list(x if x is not None else -1 for x in h.A.hull())}
 
 
 def gen_op(rng, h, acfg):
